@@ -66,7 +66,11 @@ class Horizon(Exception):
 def opname(op):
     if op[0] == "ev":
         return f"evaluate({XNAMES[op[1]]})"
+    if op[0] == "mev":
+        return f"model_objective.evaluate(q{op[1]})"
     return {"init": "initialize()", "raw": "set_raw()",
+            "begin": "model_objective.begin()",
+            "end": "model_objective.end()",
             "diff": "get_differentials()",
             "patch": "toggle initialize:=no-op"}.get(
         op[0], f"set_model(m{op[-1]})")
@@ -510,6 +514,199 @@ def thorough_job(a):
     return out
 
 
+# -------------------------------------------- the model-training objective
+# ModelObjective pulls the recorded data with begin() and evaluates model
+# parameterisations on it until end().  Histories on one (FigureOfMerit,
+# ModelObjective) pair; the value of evaluate(q) must be the one a fresh
+# pair returns after the real-system evaluations that preceded the LAST
+# begin() followed by begin().
+MO_OPS = [("ev", 0), ("ev", 1), ("begin",), ("end",), ("mev", 0),
+          ("mev", 1)]
+MO_INIT = ((), None)
+
+
+def mo_step(st, op):
+    """(recorded evaluations, data pulled by the last begin or None)."""
+    coll, begun = st
+    if op[0] == "ev":
+        return coll + (op[1],), begun
+    if op[0] == "begin":
+        return coll, coll
+    if op[0] == "end":
+        return coll, None
+    return st
+
+
+def mo_enabled(st, op):
+    if op[0] == "begin":
+        return len(st[0]) > 0       # begin() without any data: unspecified
+    if op[0] == "mev":
+        return st[1] is not None    # evaluate() outside begin()..end()
+    return True
+
+
+def mo_histories(depth):
+    out = []
+
+    def rec(h, st):
+        if h:
+            out.append(tuple(h))
+        if len(h) >= depth:
+            return
+        for op in MO_OPS:
+            if mo_enabled(st, op):
+                h.append(op)
+                rec(h, mo_step(st, op))
+                h.pop()
+    rec([], MO_INIT)
+    return out
+
+
+def mo_model(cfg):
+    from moptipyapps.dynamic_control.controllers.ann import make_ann
+    if not hasattr(cfg, "mo"):
+        cfg.mo = make_ann(cfg.n + cfg.cd, cfg.n, [2])
+        p = cfg.mo.param_dims
+        cfg.mo_q = [np.zeros(p), np.array([0.1 * (i % 5) - 0.2
+                                           for i in range(p)])]
+        cfg.mo_ref = {}
+    return cfg.mo
+
+
+def mo_pair(cfg):
+    from moptipyapps.dynamic_control.model_objective import ModelObjective
+    real = cfg.fresh()
+    return real, ModelObjective(real, mo_model(cfg))
+
+
+def mo_reference(cfg, begun, j):
+    """evaluate(q_j) of a fresh pair: evaluations `begun`, begin()."""
+    key = (begun, j)
+    if key not in cfg.mo_ref:
+        real, mobj = mo_pair(cfg)
+        for k in begun:
+            cfg.reset_calls()
+            real.evaluate(cfg.xs[k].copy())
+        mobj.begin()
+        cfg.mo_ref[key] = float(mobj.evaluate(cfg.mo_q[j].copy()))
+    return cfg.mo_ref[key]
+
+
+def mo_drive(cfg, history):
+    """-> (problems, number of evaluations, observations)."""
+    real, mobj = mo_pair(cfg)
+    st = MO_INIT
+    probs = []
+    nev = 0
+    obs = []
+    for i, op in enumerate(history):
+        op = tuple(op)
+        try:
+            if op[0] == "ev":
+                nev += 1
+                cfg.reset_calls()
+                v = real.evaluate(cfg.xs[op[1]].copy())
+                if v != cfg.val[(0, op[1])]:
+                    probs.append((
+                        f"{cfg.cls.__name__}|evaluate|value differs from a "
+                        "fresh object's (raw mode, next to a model "
+                        "objective)", f"step {i} {opname(op)} returns "
+                        f"{v!r}, a fresh objective "
+                        f"{cfg.val[(0, op[1])]!r}"))
+            elif op[0] == "begin":
+                mobj.begin()
+            elif op[0] == "end":
+                mobj.end()
+            else:
+                nev += 1
+                q = cfg.mo_q[op[1]].copy()
+                v = mobj.evaluate(q)
+                obs.append(v)
+                exp = mo_reference(cfg, st[1], op[1])
+                if not (isinstance(v, float) and v == exp):
+                    probs.append((
+                        "ModelObjective|evaluate|value differs from a fresh "
+                        "object's on the data of the last begin()",
+                        f"step {i}: evaluate(q{op[1]}) returns {v!r}; a "
+                        "fresh objective pair after the real evaluations "
+                        f"{[XNAMES[k] for k in st[1]]} and begin() returns "
+                        f"{exp!r}"))
+        except HarnessError:
+            raise
+        except Exception as e:  # noqa
+            probs.append((f"ModelObjective|{op[0]}|raises "
+                          f"{type(e).__name__}",
+                          f"step {i} {opname(op)}: {e!r}"))
+            break
+        st = mo_step(st, op)
+    return probs, nev, obs
+
+
+def mo_job(a):
+    name, hs = a
+    cfg = get_config(name)
+    out = {"name": name, "hist": 0, "ops": 0, "evals": 0, "viol": [],
+           "distinct": set(), "keys": set()}
+    seen = set()
+    for h in hs:
+        probs, nev, obs = mo_drive(cfg, h)
+        out["hist"] += 1
+        out["ops"] += len(h)
+        out["evals"] += nev
+        out["distinct"] |= set(obs)
+        st = MO_INIT
+        for op in h:
+            st = mo_step(st, op)
+        out["keys"].add(st)
+        for sig, text in probs:
+            if sig not in seen:
+                seen.add(sig)
+                out["viol"].append((sig, text, list(h)))
+    return out
+
+
+def mo_explore(ctx, configs, depth):
+    hs = mo_histories(depth)
+    jobs = [(name, ch) for name in configs
+            for ch in chunks(hs, max(1, ctx.jobs * 2 // len(configs) + 1))]
+    outs = pmap(mo_job, jobs, ctx.jobs)
+    states = 0
+    for name in configs:
+        mine = [o for o in outs if tuple(o["name"]) == tuple(name)]
+        keys = set()
+        done = set()
+        for o in mine:
+            keys |= o["keys"]
+            for sig, text, h in o["viol"]:
+                if sig in done:
+                    continue
+                done.add(sig)
+                cfg = get_config(name)
+                again = {p[0] for p in mo_drive(cfg, h)[0]}
+                if sig not in again:
+                    sig += "|not reproducible"
+                ctx.violation(
+                    sig, f"{name[0]} + {name[1]} controller, "
+                    f"{cfg.cls.__name__} with a ModelObjective (ANN model, "
+                    f"one hidden layer of 2): history {hname(h)}: {text}",
+                    {"config": list(name), "engine": "model_objective",
+                     "history": [list(o) for o in h]})
+        nh = sum(o["hist"] for o in mine)
+        ne = sum(o["evals"] for o in mine)
+        states += len(keys)
+        ctx.add("evaluations", ne)
+        ctx.add("traces_validated_against_impl", nh)
+        ctx.part("model_objective_" + "_".join(name), histories=nh,
+                 operations_applied=sum(o["ops"] for o in mine),
+                 evaluate_calls=ne, keys_reached=len(keys),
+                 max_depth=depth, distinct_model_objective_values=len(
+                     set().union(*[o["distinct"] for o in mine])))
+    ctx.add("states", states)
+    ctx.log(f"model objective: {len(hs)} histories to depth {depth} on "
+            f"{len(configs)} configurations")
+    return len(hs)
+
+
 def describe(name, h):
     return (f"{name[0]} + {name[1]} controller, "
             f"{'FigureOfMerit' if name[2] == 'mean' else 'FigureOfMeritLE'}"
@@ -638,6 +835,10 @@ def run(ctx: Ctx) -> None:
                      keys_expanded=len(items), key_op_transitions=tr,
                      transitions_from_several_histories=sum(
                          o["twice"] for o in mine), max_depth=depth)
+    # the model-training objective on the same recorded data
+    mo_cfgs = [CONFIGS[0], CONFIGS[3], CONFIGS[5], CONFIGS[8]] \
+        if ctx.quick else CONFIGS
+    mo_explore(ctx, mo_cfgs, 5 if ctx.quick else 6)
     ctx.add("states", states)
     ctx.add("transitions", transitions)
     ctx.cov["distinct_nontrivial"] = len(distinct)
@@ -674,6 +875,11 @@ def replay(ctx: Ctx, rep: dict) -> bool:
         print(f"  {sig}: {text}")
     h = [tuple(o) for o in rep["history"]]
     print(describe(name, h))
+    if rep.get("engine") == "model_objective":
+        probs = mo_drive(cfg, h)[0]
+        for sig, text in probs:
+            print(f"  {sig}: {text}")
+        return not probs
     _, probs, _ = drive(cfg, h)
     for sig, text in probs:
         print(f"  {sig}: {text}")
